@@ -76,9 +76,23 @@ static int forced_two_signals(void){ for(int r=0;r<3;r++){ FS=dispatch_semaphore
     if(dispatch_semaphore_wait(FS,dispatch_time(DISPATCH_TIME_NOW,1000000000ll))){ printf("ORACLE VIOL seed=%llu two signals for one waiter: the second permit was not obtainable afterwards: round %d\n",(unsigned long long)seed,r); fflush(stdout); return 1; }
     dispatch_release(FS); }
   return 0; }
+// ---- forced history: a waiter blocked without timeout is hit by signals (handler installed without SA_RESTART): it is not released by
+// them ("the number of waits that returned zero is at most v plus the signals started"), one signal releases it, no permit is left.
+static void fs_usr1(int sig){ (void)sig; }
+static int forced_interrupted_wait(void){ struct sigaction sa; memset(&sa,0,sizeof sa); sa.sa_handler=fs_usr1; sigaction(SIGUSR1,&sa,0);
+  for(int r=0;r<2;r++){ FS=dispatch_semaphore_create(0); _Atomic int got=0; pthread_t w; pthread_create(&w,0,fs_waiter,&got); usleep(5000);
+    for(int k=0;k<4;k++){ pthread_kill(w,SIGUSR1); usleep(3000); }
+    if(atomic_load(&got)){ printf("ORACLE VIOL seed=%llu a dispatch_semaphore_wait without timeout on a semaphore created with 0 returned zero although no signal had been issued (it was interrupted by a signal handler): round %d\n",(unsigned long long)seed,r); fflush(stdout); return 1; }
+    dispatch_semaphore_signal(FS); for(int k=0;k<3000 && !atomic_load(&got);k++) usleep(1000);
+    if(!atomic_load(&got)){ printf("ORACLE VIOL seed=%llu a waiter blocked without timeout was not released by a signal after it had been interrupted by signal handlers: round %d\n",(unsigned long long)seed,r); fflush(stdout); return 1; }
+    pthread_join(w,0);
+    if(dispatch_semaphore_wait(FS,DISPATCH_TIME_NOW)==0){ printf("ORACLE VIOL seed=%llu one signal, one released waiter, and a permit was still obtainable afterwards: round %d\n",(unsigned long long)seed,r); fflush(stdout); return 1; }
+    dispatch_release(FS); }
+  return 0; }
 int main(int argc, char **argv){
   seed = argc>1 ? strtoull(argv[1],0,0) : 1; int nthr = argc>2 ? atoi(argv[2]) : 4; nops = argc>3 ? atoi(argv[3]) : 300; init = argc>4 ? atol(argv[4]) : 2;
   if(forced_two_signals()) return 1;
+  if(forced_interrupted_wait()) return 1;
   evs = calloc(MAXEV, sizeof(ev_t)); S = dispatch_semaphore_create(init);
   _dispatch_verif_yield_cb = ycb; _dispatch_verif_atomic_cb = cb;
   struct sigaction sa; memset(&sa,0,sizeof sa); sa.sa_handler=on_usr1; sigaction(SIGUSR1,&sa,0);
